@@ -8,7 +8,7 @@
 (*   3 the freelist pool                                                      *)
 (* A process crash keeps what completed writes put into the files and loses   *)
 (* the pools, the in-memory bucket table, the predicted position and the      *)
-(* collector's `visited` set.  Crash(np, order, ni, fl) stops the commit      *)
+(* collectors' memory (`gcmem`).  Crash(np, order, ni, fl) stops the commit      *)
 (* after np primary records, ni record lists (only once the primary is        *)
 (* complete) and with or without the freelist (only once the index is         *)
 (* complete); np = ni = 0 is a crash outside any commit.  Recovery: the       *)
@@ -42,7 +42,7 @@ CRemove(k) == Remove(k) /\ since' = [since EXCEPT ![k] = @ \cup {-1}] /\ UNCHANG
 CFlush == Flush /\ dur' = kv /\ since' = [k \in Keys |-> {}] /\ ok' = AllOK
 \* a collector's cycle commits nothing on its own account (relocated copies stay in the pools)
 CPriGC(lu, d) == PriGCd(lu, d) /\ UNCHANGED <<dur, since>> /\ ok' = AllOK
-CIdxGC(sf) == IdxGC(sf) /\ UNCHANGED <<dur, since>> /\ ok' = AllOK
+CIdxGC(sf, d) == IdxGCd(sf, d) /\ UNCHANGED <<dur, since>> /\ ok' = AllOK
 
 \* ---- what an open computes from the files alone (pure functions of the files: no pools, no live table)
 \* the rescan: every file from the first one, records in order, deleted ones skipped, a later record of a bucket wins
@@ -77,7 +77,7 @@ ContentsOf(tbl, ifs, ifst, pfs, pfst) == [k \in Keys |-> ValueOf(tbl, ifs, ifst,
 Reopened(pfs, pl) ==
   /\ pnext' = <<>> /\ inext' = [b \in Buckets |-> NoList] /\ flpool' = <<>>
   /\ recFile' = pfirst + Len(pfs) - 1 /\ recPos' = pl
-  /\ visited' = {}
+  /\ gcmem' = NoMem
 
 \* Close (commit of everything, freelist included, snapshot of the table) and reopen through the snapshot or - the
 \* snapshot deleted or unreadable - through the rescan
@@ -122,7 +122,7 @@ Stages(order) ==      \* the crash points of one commit in the configured order
 CrashAny == \E order \in Perms(Dirty) : \E st \in Stages(order) : Crash(st[1], order, st[2], st[3])
 
 CNext == \/ (\E k \in Keys, v \in Vals : CPut(k, v)) \/ (\E k \in Keys : CRemove(k)) \/ CFlush
-         \/ (WithGC /\ ((\E lu \in LowUses, d \in Deadlines : CPriGC(lu, d)) \/ \E sf \in BOOLEAN : CIdxGC(sf)))
+         \/ (WithGC /\ ((\E lu \in LowUses, d \in Deadlines : CPriGC(lu, d)) \/ \E sf \in BOOLEAN, d \in IDeadlines : CIdxGC(sf, d)))
          \/ ("reopen" \in Faults /\ \E how \in {"snapshot", "rescan"} : Reopen(how))
          \/ ("crash" \in Faults /\ CrashAny)
 CSpec == CInit /\ [][CNext]_cvars
